@@ -167,6 +167,15 @@ CLAIMED = {
              "the unwritable-directory case is replayed as uid 65534.",
         technique="Coq proof (case analysis over the link's file operations on an abstract file system) + correspondence with live processes across a relink",
         design_ref="DESIGN.md §3 C21"),
+    "C36": dict(
+        text="S1: Gallina model of merge_gnu_property_notes (one pass over all properties of all inputs with a map keyed by type, class from get_property_class, final filter, -z x86-64-vN) and "
+             "of the stack rule (validate_stack_section, PF_X iff -z execstack); specification = per property type the AND / OR / OR_AND of the inputs' values with GNU ld's drop rules, in type "
+             "order, and GNU ld's stack rule. Theorems: for every list of inputs wild's note IS the specified merge (or the link is rejected for an unclassified type); on every accepted link "
+             "PT_GNU_STACK is executable iff GNU ld's is, unless stack notes are partly missing without a -z flag (refuted there, recorded).",
+        note="Trusted: the specification is validated on every run against GNU ld 2.40 itself (property note and PT_GNU_STACK of the same links; 0 disagreements); 4-byte properties only; shared "
+             "library inputs and -z ibt/shstk are outside the generated inputs; GNU ld 2.40 aborts on -z x86-64-baseline, so that flag is not generated.",
+        technique="Coq proof (fold over the flattened property list = per-file fold, by induction with NoDup) + model/implementation and spec/GNU-ld correspondence on generated links",
+        design_ref="DESIGN.md §3 C36"),
     "C37": dict(
         text="S1 on top of C03: DT_NEEDED = the shared libraries in the verified loaded set, in command-line order. Theorems: listed iff loaded shared library; every --no-as-needed library listed; "
              "an --as-needed library listed only if some loaded file non-weakly references a name whose first definition it is; strictly increasing command-line positions (each at most once).",
